@@ -34,6 +34,15 @@ OpStep(ev) ==
       /\ lst' = [lst EXCEPT ![ev.i] = ev.fwd]
       /\ fl' = fl
 
+(* an operation that ended with an exception from the key type's copy (harness: a key whose copies can be made to fail):
+   the container is exactly what it was *)
+FailStep(ev) ==
+  /\ Chk(ev.fwd = lst[ev.i], "an operation that failed (the key could not be copied) changed the recency list")
+  /\ Chk(ev.bwd = Rev(ev.fwd), "prev links disagree with next links after a failed operation")
+  /\ Chk(ev.size = TotalSize(lst[ev.i]) /\ ev.count = Len(lst[ev.i]), "size() / count() changed by an operation that failed")
+  /\ lst' = [lst EXCEPT ![ev.i] = ev.fwd]
+  /\ fl' = fl
+
 SwapStep(ev) ==
   /\ Chk(ev.fwd1 = lst[2] /\ ev.fwd2 = lst[1], "swap did not exchange the two recency lists")
   /\ Chk(ev.bwd1 = Rev(ev.fwd1) /\ ev.bwd2 = Rev(ev.fwd2), "prev links disagree with next links after swap")
@@ -48,6 +57,7 @@ Next ==
   /\ LET ev == Tr[l] IN
        CASE ev.e = "Reset" -> fl' = ev.fl /\ lst' = <<<<>>, <<>>>>
          [] ev.e = "op"    -> OpStep(ev)
+         [] ev.e = "opfail" -> FailStep(ev)
          [] ev.e = "swap"  -> SwapStep(ev)
          [] OTHER          -> Bad("no specification action for event " \o ev.e) /\ UNCHANGED <<fl, lst>>
 
